@@ -5,6 +5,7 @@ import (
 	"go/constant"
 	"go/types"
 	"math/big"
+	"os"
 	"sort"
 	"strings"
 
@@ -13,9 +14,10 @@ import (
 
 // SVal is a translated contract expression.
 type SVal struct {
-	T    string
-	Typ  types.Type // may be nil for pure ghost values
-	Sort string
+	ElemTyp types.Type // for ghost arrays: Go type of the stored values
+	T       string
+	Typ     types.Type // may be nil for pure ghost values
+	Sort    string
 }
 
 type specSig struct {
@@ -117,6 +119,22 @@ func (env *SpecEnv) loadLocSpec(l *Loc) string {
 	return t
 }
 
+// loadStructSpec builds the value of the struct stored at ref in the environment's heap.
+func (env *SpecEnv) loadStructSpec(ref string, t types.Type) string {
+	e := env.e
+	si := e.W.structInfo(t)
+	var fs []string
+	for i := 0; i < si.St.NumFields(); i++ {
+		ft := si.St.Field(i).Type()
+		if e.W.structInfo(ft) != nil {
+			fs = append(fs, env.loadStructSpec(e.subRef(t, i, ref), ft))
+			continue
+		}
+		fs = append(fs, app("select", env.heapOf(e.W.fieldComp(si.Type, i)), ref))
+	}
+	return e.W.mkStruct(si, fs)
+}
+
 func (env *SpecEnv) lookupIdent(name string) (SVal, error) {
 	e := env.e
 	if v, ok := env.binders[name]; ok {
@@ -153,6 +171,9 @@ func (env *SpecEnv) lookupIdent(name string) (SVal, error) {
 	} else if env.fr != nil {
 		if !env.entryOnly && !env.inOld && env.block != nil {
 			if sv, isAddr, ok := env.fr.lookupName(name, env.block, env.idx); ok {
+				if os.Getenv("VERIF_DEBUG") == "2" {
+					fmt.Fprintf(os.Stderr, "DEBUG lookup %s at b%d/%d -> %s (%T) addr=%v val=%+v\n", name, env.block.Index, env.idx, sv.Name(), sv, isAddr, e.val(sv))
+				}
 				if env.subst != nil {
 					if r, ok := env.subst[sv]; ok {
 						sv = r
@@ -200,7 +221,8 @@ func (env *SpecEnv) lookupIdent(name string) (SVal, error) {
 	}
 	if g, ok := e.P.reg.Ghosts[name]; ok {
 		c := e.ghostComp(g)
-		return SVal{T: env.heapOf(c), Sort: c.Sort}, nil
+		vt, _ := e.evalType(g.ValType, e.P.tpkgs[g.Pkg])
+		return SVal{T: env.heapOf(c), Sort: c.Sort, ElemTyp: vt}, nil
 	}
 	if name == "alloc" {
 		return SVal{T: env.heapOf(e.allocComp()), Sort: "Int"}, nil
@@ -327,7 +349,7 @@ func (env *SpecEnv) tr(x *CExpr) (SVal, error) {
 		if v.Sort == "nil" {
 			v = env.nilOf(SVal{Sort: arrayRange(b.Sort)})
 		}
-		return SVal{T: app("store", b.T, k.T, v.T), Typ: b.Typ, Sort: b.Sort}, nil
+		return SVal{T: app("store", b.T, k.T, v.T), Typ: b.Typ, Sort: b.Sort, ElemTyp: b.ElemTyp}, nil
 	case "slice":
 		b, err := env.tr(x.Args[0])
 		if err != nil {
@@ -383,6 +405,13 @@ func (env *SpecEnv) tr(x *CExpr) (SVal, error) {
 			return SVal{T: sNot(a.T), Typ: a.Typ, Sort: "Bool"}, nil
 		case "-":
 			return SVal{T: app("-", a.T), Typ: a.Typ, Sort: a.Sort}, nil
+		case "*": // dereference of a pointer to a non-struct value
+			if a.Typ != nil {
+				if pt, ok := a.Typ.Underlying().(*types.Pointer); ok && e.W.structInfo(pt.Elem()) == nil {
+					return SVal{T: app("select", env.heapOf(W.cellComp(pt.Elem())), a.T), Typ: pt.Elem(), Sort: W.sortOf(pt.Elem())}, nil
+				}
+			}
+			return SVal{}, fmt.Errorf("cannot dereference %s", x.Args[0])
 		}
 	case "ite":
 		c, err := env.formula(x.Args[0])
@@ -681,7 +710,7 @@ func (env *SpecEnv) index(b, i SVal) (SVal, error) {
 	if strings.HasPrefix(b.Sort, "(Array ") {
 		// ghost component / raw array
 		rs := arrayRange(b.Sort)
-		return SVal{T: app("select", b.T, i.T), Sort: rs}, nil
+		return SVal{T: app("select", b.T, i.T), Sort: rs, Typ: b.ElemTyp}, nil
 	}
 	return SVal{}, fmt.Errorf("cannot index value of sort %s", b.Sort)
 }
@@ -847,6 +876,76 @@ func (env *SpecEnv) call(x *CExpr) (SVal, error) {
 			return SVal{}, err
 		}
 		return SVal{T: app(rm.ri, rm.it, a.T), Typ: intT, Sort: "Int"}, nil
+	case "contains", "containsUpTo": // contains(s, x) / containsUpTo(s, n, x): x occurs in s (among the first n elements)
+		sl, err := argv(0)
+		if err != nil {
+			return SVal{}, err
+		}
+		var bound, xv SVal
+		if x.Name == "contains" {
+			if len(x.Args) != 2 {
+				return SVal{}, fmt.Errorf("contains(s, x)")
+			}
+			l, err := env.call(&CExpr{Op: "call", Name: "len", Args: []*CExpr{x.Args[0]}})
+			if err != nil {
+				return SVal{}, err
+			}
+			bound = l
+			if xv, err = argv(1); err != nil {
+				return SVal{}, err
+			}
+		} else {
+			if len(x.Args) != 3 {
+				return SVal{}, fmt.Errorf("containsUpTo(s, n, x)")
+			}
+			if bound, err = argv(1); err != nil {
+				return SVal{}, err
+			}
+			if xv, err = argv(2); err != nil {
+				return SVal{}, err
+			}
+		}
+		// integer-, bool- and string-valued slices: the recursive definition memI/memB/memS
+		if sl.Typ != nil {
+			if st, ok := sl.Typ.Underlying().(*types.Slice); ok {
+				fn := map[string]string{"Int": "memI", "Bool": "memB", "Str": "memS"}[W.sortOf(st.Elem())]
+				if _, isPtr := st.Elem().Underlying().(*types.Pointer); fn != "" && !isPtr && e.P.reg.Specs[fn] != nil {
+					sig, err := e.specSignatureFor(env, e.P.reg.Specs[fn])
+					if err != nil {
+						return SVal{}, err
+					}
+					v, err := env.toView(sl)
+					if err != nil {
+						return SVal{}, err
+					}
+					if env.curSpec != nil {
+						env.curSpec.calls[fn] = true
+					}
+					return SVal{T: app(sig.smt, v.T, bound.T, xv.T), Typ: boolT, Sort: "Bool"}, nil
+				}
+			}
+		}
+		e.nfresh++
+		iv := fmt.Sprintf("q!ci%d", e.nfresh)
+		el, err := env.index(sl, SVal{T: iv, Sort: "Int"})
+		if err != nil {
+			return SVal{}, err
+		}
+		if xv.Sort == "nil" {
+			xv = env.nilOf(el)
+		}
+		if el.Sort != xv.Sort {
+			return SVal{}, fmt.Errorf("%s: element sort %s vs %s", x.Name, el.Sort, xv.Sort)
+		}
+		return SVal{T: fmt.Sprintf("(exists ((%s Int)) (and (<= 0 %s) (< %s %s) (= %s %s)))", iv, iv, iv, bound.T, el.T, xv.T), Typ: boolT, Sort: "Bool"}, nil
+	case "atentry": // atentry(e): e evaluated in the heap with which the current loop was entered
+		if env.loop == nil || env.loop.entryHeap == nil {
+			return SVal{}, fmt.Errorf("atentry outside a loop invariant (or loop with several entry edges)")
+		}
+		n := *env
+		n.heap = env.loop.entryHeap
+		n.inOld = false
+		return (&n).tr(x.Args[0])
 	case "view":
 		a, err := argv(0)
 		if err != nil {
@@ -905,6 +1004,12 @@ func (env *SpecEnv) call(x *CExpr) (SVal, error) {
 		if a.Sort == "nil" {
 			a = env.nilOf(sig.params[i])
 		}
+		if strings.HasPrefix(sig.params[i].Sort, "S!") && a.Sort == "Int" && a.Typ != nil {
+			// address of a struct variable where the struct value is expected: read it
+			if pt, ok := a.Typ.Underlying().(*types.Pointer); ok && e.W.structInfo(pt.Elem()) != nil && e.W.sortOf(pt.Elem()) == sig.params[i].Sort {
+				a = SVal{T: env.loadStructSpec(a.T, pt.Elem()), Typ: pt.Elem(), Sort: sig.params[i].Sort}
+			}
+		}
 		if isView(sig.params[i].Sort) && a.Sort == "Slice" {
 			if a, err = env.toView(a); err != nil {
 				return SVal{}, err
@@ -952,6 +1057,13 @@ func (env *SpecEnv) methodCall(x *CExpr) (SVal, error) {
 
 // ---------------------------------------------------------------------------
 // Spec functions
+
+func (e *Enc) specSignatureFor(env *SpecEnv, sf *SpecFn) (*specSig, error) {
+	if env.curSpec != nil {
+		return e.specShell(sf)
+	}
+	return e.specSignature(sf)
+}
 
 // specShell creates the signature (without body) of a spec function.
 func (e *Enc) specShell(sf *SpecFn) (*specSig, error) {
